@@ -120,6 +120,8 @@ def _ends_in_return(stmts):
         return True
     if isinstance(s, ast.If):
         return _ends_in_return(s.body) and _ends_in_return(s.orelse)
+    if isinstance(s, ast.Try) and not s.finalbody:
+        return (_ends_in_return(s.body) or _ends_in_return(s.orelse)) and all(_ends_in_return(h.body) for h in s.handlers)
     return False
 
 
@@ -394,6 +396,23 @@ def _hoist(repo, caller, s, known, caller_names):
     return None
 
 
+def _lift_try_returns(body):
+    """`try: …; return E  except X: …`  ->  `try: …; r = E  except X: …  else: return r` (the return itself raises nothing): the value leaves the
+    guarded part, so that the caller's branches are not shown inside the helper's try."""
+    out = []
+    for s in body:
+        if isinstance(s, ast.Try) and not s.orelse and not s.finalbody and s.body and isinstance(s.body[-1], ast.Return) and s.body[-1].value is not None \
+                and not isinstance(s.body[-1].value, ast.Constant) and not any(_has_return(x) for x in s.body[:-1]):
+            r = s.body[-1]
+            s = clone([s])[0]
+            name = '_r%d' % r.lineno
+            s.body[-1] = ast.copy_location(ast.Assign(targets=[ast.Name(id=name, ctx=ast.Store())], value=clone([ast.Expr(value=r.value)])[0].value), r)
+            s.orelse = [ast.copy_location(ast.Return(value=ast.Name(id=name, ctx=ast.Load())), r)]
+            ast.fix_missing_locations(s)
+        out.append(s)
+    return out
+
+
 def _has_stmt_effects(fnode):
     return False
 
@@ -403,7 +422,8 @@ def _bool_returns_only(body):
     def walk(stmts, guarded):
         for s in stmts:
             if isinstance(s, ast.Return):
-                if guarded or not (isinstance(s.value, ast.Constant) and isinstance(s.value.value, bool)):
+                # (`return <test>` outside a try body: the caller branches on the test in its place)
+                if guarded or s.value is None or (isinstance(s.value, ast.Constant) and not isinstance(s.value.value, bool)):
                     return False
             elif isinstance(s, (ast.For, ast.While, ast.AsyncFor, ast.With, ast.AsyncWith)):
                 if _has_return(s):
@@ -446,6 +466,20 @@ def _thread_if(repo, caller, s, known, caller_names, stack, stats):
     if not isinstance(s, ast.If):
         return None
     test, neg = s.test, False
+    if isinstance(test, ast.BoolOp) and isinstance(test.op, ast.And) and len(s.orelse) <= 3 and not getattr(s, '_split_and', False):
+        # `if a and self.probe(x): A else: B`  ->  `if a: (if self.probe(x): A else: B) else: B`
+        last = test.values[-1]
+        inner_t = last.operand if isinstance(last, ast.UnaryOp) and isinstance(last.op, ast.Not) else last
+        if isinstance(inner_t, ast.Call) and _resolve(repo, caller, inner_t, known)[0] is not None:
+            head = test.values[0] if len(test.values) == 2 else ast.BoolOp(op=ast.And(), values=list(test.values[:-1]))
+            inner = ast.copy_location(ast.If(test=last, body=s.body, orelse=clone(s.orelse)), s)
+            inner._split_and = True
+            r = _thread_if(repo, caller, inner, known, caller_names, stack, stats)
+            if r is None:
+                return None
+            outer = ast.copy_location(ast.If(test=head, body=r, orelse=clone(s.orelse)), s)
+            ast.fix_missing_locations(outer)
+            return [outer]
     if isinstance(test, ast.UnaryOp) and isinstance(test.op, ast.Not):
         test, neg = test.operand, True
     if not isinstance(test, ast.Call):
@@ -454,7 +488,10 @@ def _thread_if(repo, caller, s, known, caller_names, stack, stats):
     if callee is None or callee.ref in stack or len(stack) >= MAX_DEPTH:
         return None
     body0 = _strip_doc(list(callee.orig_node.body if hasattr(callee, 'orig_node') else callee.node.body))
-    if _pred_expr(clone(body0)) is not None or not _bool_returns_only(body0) or not _ends_in_return(body0):
+    if _pred_expr(clone(body0)) is not None:
+        return None
+    body0 = _lift_try_returns(body0)
+    if not _bool_returns_only(body0) or not _ends_in_return(body0):
         return None
     A, B = (s.orelse, s.body) if neg else (s.body, s.orelse)
     if _has_jump(A) or _has_jump(B):
@@ -488,8 +525,12 @@ def _thread_if(repo, caller, s, known, caller_names, stack, stats):
         out = []
         for st in stmts:
             if isinstance(st, ast.Return):
-                out.extend(clone(A if st.value.value else B))
-                out.append(ast.copy_location(ast.Break(), st))
+                if isinstance(st.value, ast.Constant):
+                    out.extend(clone(A if st.value.value else B))
+                    out.append(ast.copy_location(ast.Break(), st))
+                else:
+                    brk = ast.copy_location(ast.Break(), st)
+                    out.append(ast.copy_location(ast.If(test=st.value, body=clone(A) + [brk], orelse=clone(B) + [clone([brk])[0]]), st))
                 continue
             for field in ('body', 'orelse', 'finalbody'):
                 v = getattr(st, field, None)
@@ -662,6 +703,10 @@ def normalise_aliases(repo):
                 replace_node(m, f, new)
                 n += 1
             new = normalize.apply_drops(f.node)
+            if new is not None:
+                f = replace_node(m, f, new) or f
+                n += 1
+            new = normalize.apply_unroll(f.node)
             if new is not None:
                 replace_node(m, f, new)
                 n += 1
